@@ -344,6 +344,30 @@ func runSignal(rc *kernel.RunCtx, k *kernel.Kernel) {
 	})
 
 	checkRound := func() {
+		if round > 0 {
+			// A repeated Handle call: the statement describes one call; whether
+			// a later call shuts everything down again, only what was added
+			// since, or nothing at all is left open.  What is not: within the
+			// call nobody is shut down twice, the order is reverse registration
+			// order, and success is not reported if a Shutdown it made failed.
+			failed := false
+			for i, idx := range calls {
+				if idx < 0 || idx >= len(registered) || (i > 0 && idx >= calls[i-1]) {
+					k.Fail("shutdown-sequence", "SignalHandler.Handle", fmt.Sprintf(
+						"Handle call #%d (after %d more services were added): Shutdown was called on services %v, which is not reverse registration order without repetition",
+						round+1, len(extra), calls))
+
+					return
+				}
+				failed = failed || registered[idx].outcome != outNil
+			}
+			if status == osutil.ExitCodeSuccess && failed {
+				k.Fail("exit-status", "SignalHandler.Handle", fmt.Sprintf(
+					"Handle call #%d returned ExitCodeSuccess although a Shutdown it called did not return nil (called %v, outcomes: %s)", round+1, calls, outcomes(registered)))
+			}
+
+			return
+		}
 		want := make([]int, 0, len(registered))
 		allNil := true
 		for i := len(registered) - 1; i >= 0; i-- {
@@ -368,6 +392,11 @@ func runSignal(rc *kernel.RunCtx, k *kernel.Kernel) {
 		switch {
 		case !queueHasShutdown() && len(calls) > 0:
 			k.Fail("shutdown-before-signal", "SignalHandler.Handle", "a service was shut down before any shutdown signal was delivered")
+		case !queueHasShutdown() && justReturned && round > 0:
+			// A repeated call that returns at once: left open, see checkRound.
+			calls = calls[:0]
+			justReturned = false
+			round++
 		case !queueHasShutdown() && justReturned:
 			k.Fail("returned-without-shutdown-signal", "SignalHandler.Handle", "Handle returned although no shutdown signal was delivered")
 		case justReturned:
